@@ -32,7 +32,8 @@ import subprocess
 
 VERIF = os.path.dirname(os.path.dirname(os.path.abspath(__file__)))
 BUILD = os.path.join(VERIF, "build")
-CAPY = os.path.join(VERIF, "target", "capy", "release", "capy")
+CAPY = os.path.join(os.environ.get("VERIF_TARGET", os.path.join(VERIF, "target")), "capy", "release", "capy")
+REPO = os.environ.get("VERIF_REPO", "/repo")
 SHIM = os.path.join(BUILD, "capysim_shim.so")
 LAUNCH = os.path.join(BUILD, "capysim_launch")
 LDSO = "/lib64/ld-linux-x86-64.so.2"
@@ -236,7 +237,7 @@ class Box:
         if os.path.islink(core):
             return
         shutil.rmtree(core, ignore_errors=True)
-        shutil.copytree("/repo/core", core)
+        shutil.copytree(os.path.join(REPO, "core"), core)
 
     # --- processes -----------------------------------------------------------------------
     def compile(self, args, w, cwd=None, trace=False, timeout=TIMEOUT_S):
